@@ -281,6 +281,7 @@ def GoodEv (W : FVal → Prop) : Ev → Prop
   | .ret x => InPct x
   | .tried x => W x
   | .late x => W x
+  | .key _ => True
   | .raised e => e = .protocol
   | .logged _ => True
 
